@@ -79,7 +79,7 @@ def gen_logical_tree(rng: Any) -> dict[str, Any]:
         shape = alias_shape or rng.choice(["none", "prepare", "start", "both", "both"])
         node = {"alias": alias, "kind": kind, "shape": shape, "hard_kwargs": gen_kwargs(rng) if kind == "hard" and path else {},
                 "children": [], "ext": None, "alias_derived": alias_shape is not None, "starts_plugin": rng.random() < 0.25,
-                "type_from_ext": kind == "hard" and bool(path) and rng.random() < 0.2}
+                "type_from_ext": kind == "hard" and bool(path) and rng.random() < 0.2, "sync_start": rng.random() < 0.2}
         if path:
             r = rng.random()
             if kind == "config_only":
@@ -182,6 +182,15 @@ class Harness:
                             add_resource(("plugin", path), "default", types=[h.marker_type(path, "plugin")])
 
                     await _start(PlugIn, timeout=None)
+
+            if node.get("sync_start"):
+                # start() written as a plain function that registers its default-named resources right away and hands back an
+                # awaitable for the rest (a decorator that wraps an `async def start` has the same shape): it is start() all the same
+                async_rest = start
+
+                def start(self: Any) -> Any:  # noqa: F811
+                    add_resource(("start-sync-part", path), "default", types=[h.marker_type(path, "start_sync")])
+                    return async_rest(self)
 
             methods: dict[str, Any] = {}
             if node["shape"] in ("prepare", "both"):
@@ -307,7 +316,7 @@ async def one_run(h: Harness, cfg: dict[str, Any], out: dict[str, Any]) -> None:
             tg.cancel_scope.cancel()
         seen = {}
         for p in h.tree["nodes"]:
-            for what in ("prepare", "start", "factory", "plugin"):
+            for what in ("prepare", "start", "factory", "plugin", "start_sync"):
                 T = h.marker_type(p, what)
                 if what == "factory":
                     names = sorted(n for (types, n, is_f) in h.events if T in types and is_f)
@@ -384,6 +393,11 @@ async def scenario(case: dict[str, Any], out: dict[str, Any]) -> None:
                 names = sorted(nm for (types, nm, is_f) in r["events"] if T in types and not is_f)
                 if names != want:
                     bad("config-event-name", f"ResourceEvents for start() resources of {p!r}: names {names}, expected {want}")
+            if n.get("sync_start") and n["shape"] in ("start", "both"):
+                inc("start_methods_that_are_plain_functions_returning_an_awaitable")
+                if r["seen"][(p, "start_sync")] != [suffix]:
+                    bad("config-default-name-start", f"a resource added as `default` by the synchronous part of start() of {p!r} (alias {n['alias']!r}) appears under "
+                                                     f"{r['seen'][(p, 'start_sync')]}, expected {[suffix]}")
             if n.get("starts_plugin") and n["shape"] in ("start", "both"):
                 inc("nested_trees_started_by_components")
                 if r["seen"][(p, "plugin")] != ["default"]:
